@@ -456,6 +456,18 @@ int x_await(XSock *x, int cond) {
     ApiScope a("xcm_await", x, x->nonblocking);
     int rc = xcm_await(x->s, cond);
     G->logf("xcm_await(%s, %d) = %d", x->label.c_str(), cond, rc);
+    // C16 (last clause): input that the kernel already holds for a plain (non-TLS) connection meets RECEIVABLE at the time of
+    // xcm_await, whatever else is outstanding (a frame lingering in the send buffer included): the descriptor is readable at once
+    if (XO.check_ready_at_await && rc == 0 && (cond & XCM_SO_RECEIVABLE) && x->nonblocking && !x->is_server && !x->is_tls && !x->terminal() && !x->closing && x->xfd >= 0) {
+        auto f = x_kernel_conn(x);
+        bool plain = f && (std::dynamic_pointer_cast<UnixSock>(f) || (std::dynamic_pointer_cast<TcpSock>(f) && x->is_tcp_based));
+        if (plain && (f->poll_mask() & POLLIN)) {
+            G->count("probe.await_with_input_pending");
+            if (!K->epoll_ready(x->xfd))
+                G->violation("C16.not_ready_when_met", "%s: xcm_await(%d) with input already held by the kernel for this connection: the socket's descriptor is not readable; registrations: %s",
+                             x->label.c_str(), cond, K->epoll_dump(x->xfd).c_str());
+        }
+    }
     return rc;
 }
 
